@@ -6,17 +6,17 @@ from units.u_gopkgs import types
 GC = "crates/compiler/src/go/compile.rs"
 RW = [(re.compile(r"\bgoast::"), "", "*"), (re.compile(r"\bgoty::"), "", "*"), (re.compile(r"\btast::"), "", "*"),
       (re.compile(r'format!\("_\{\}", (field_index|index)\)'), r"pos_field_name(*\1)", "*"),
-      (re.compile(r'format!\("_\{\}", (\w+)\)'), r"pos_field_name(\1)", "*")]
+      (re.compile(r'format!\("_\{\}", ([^()]+)\)'), r"pos_field_name(\1)", "*")]
 
 
 def enum_map(elem_ty):
     """`X.iter().enumerate().map(|(i, t)| (format!("_{}", i), F)).collect()` -> an index loop that pushes (name of position i, F) for every element, in order (std semantics of enumerate / map / collect)"""
     def f(mt):
-        recv, i, t, val = re.sub(r"\s+", "", mt.group(1)), mt.group(2), mt.group(3), mt.group(4).strip()
+        recv, i, t, nm, val = re.sub(r"\s+", "", mt.group(1)), mt.group(2), mt.group(3), mt.group(4).strip(), mt.group(5).strip()
         return (f"{{ let mut __po: Vec<(String, {elem_ty})> = Vec::new(); let mut __pi: usize = 0; while __pi < {recv}.len() {{ let {i} = __pi; let {t} = &{recv}[__pi]; "
-                f"let __e = (pos_field_name({i}), {val}); __po.push(__e); __pi += 1; }} __po }}")
+                f"let __e = ({nm}, {val}); __po.push(__e); __pi += 1; }} __po }}")
     f.__doc__ = enum_map.__doc__
-    return (re.compile(r"(\w[\w\.\s]*?)\s*\.iter\(\)\s*\.enumerate\(\)\s*\.map\(\|\((\w+), (\w+)\)\| \(format!\(\"_\{\}\", \2\), (.*?)\)\)\s*\.collect\(\)", re.S), f, 1)
+    return (re.compile(r"(\w[\w\.\s]*?)\s*\.iter\(\)\s*\.enumerate\(\)\s*\.map\(\|\((\w+), (\w+)\)\| \((format!\([^()]*\)), (.*?)\)\)\s*\.collect\(\)", re.S), f, 1)
 
 
 def lit_loops(place):
